@@ -14,6 +14,9 @@ def catalogue(tier, mutant=None):
     for j in (0, 1, 2):
         J["S2.J%d" % j] = scanunit.job("DependencyScan.VerifyDAG.contract.J%d" % j, "scan_verifydag.cc", REAL, ["J=%d" % j], mutant, rec=["RecomputeNodeDirty"], canaries=2,
                                        bound="a visit stack of 3 statements; the node reached belongs to stack entry %d (itself or another output of its statement)" % j)
+    for nin in (2, 3):
+        J["S3.N%d" % nin] = scanunit.job("DependencyScan.RecomputeEdgesInputsDirty.contract.in%d" % nin, "scan_inputs.cc", ["RecomputeEdgesInputsDirty"], ["NIN=%d" % nin], mutant, canaries=3,
+                                         bound="a statement with %d inputs, any explicit/implicit/order-only split; dirty flags, mtimes, producer readiness, visit results and the previous most-recent input symbolic" % nin)
     return J
 
 
@@ -30,6 +33,6 @@ def select(tier, keys, tag, mutant=None):
 
 TRUST = scanunit.TRUST
 ASSUME = ["MODULAR: RecomputeNodeDirty is checked against the CONTRACTS of RecomputeEdgesInputsDirty (from its doc comment), RecomputeOutputsDirtyCache::all/depfile, ImplicitDepLoader::LoadDeps/LoadDepsTry, "
-          "Node::Stat and LoadDyndeps; those functions themselves (C++17: if constexpr, std::optional, EdgeInputsRange iteration) are NOT under contract",
+          "Node::Stat and LoadDyndeps; of these RecomputeEdgesInputsDirty has its own run (S3) and RecomputeOutputsDirtyCache is under contract in C02; the loaders are not",
           "the recursive visit of the dyndep node is replaced by the function's own contract (R1); the leaf case (no in-edge) is covered by inspection only",
           "VerifyDAG precondition: the visit stack satisfies the DFS invariant (each entry is an input of the previous entry's statement) - established by RecomputeNodeDirty/RecomputeEdgesInputsDirty, asserted at the stub"]
